@@ -123,8 +123,11 @@ def run_runner_case(case: dict[str, Any]) -> dict[str, Any]:
                     add_resource(TYPES[0](r["id"]), f"res{r['id']}", types=[TYPES[0], TYPES[1]],
                                  teardown_callback=cb)
                 else:
-                    # ("pass_exception" given as a truthy / falsy value that is no bool)
-                    add_teardown_callback(make_cb(r), (1 if r["pass"] else 0) if r["id"] % 3 == 0 else r["pass"])
+                    # ("pass_exception" given as a truthy / falsy value that is no bool; the callback may be the bound method of
+                    # a helper object that nothing else refers to)
+                    from .kernel import Temp
+
+                    add_teardown_callback(Temp(make_cb(r)).call if r["id"] % 4 == 1 else make_cb(r), (1 if r["pass"] else 0) if r["id"] % 3 == 0 else r["pass"])
                 log.append(["reg", r["id"], r["pass"]])
 
         await register(regs[:half])
